@@ -52,7 +52,7 @@ let tcp_conn prov end_ handler (conn : string) : string * string =
   let segs = Stdlib.List.map seg_bytes (split ',' conn) in
   let tl = if end_ = "idle" then [Framing.RdTimeout] else [Framing.RdEof] in
   let evs = Stdlib.List.map (fun s -> Framing.RdData (s, false)) segs @ tl in
-  let run = if prov = "tk" || prov = "tk1" then Framing.run_tcp_tokio else Framing.run_tcp_blocking in
+  let run = if prov = "tk" || prov = "tk1" || prov = "tkw" then Framing.run_tcp_tokio else Framing.run_tcp_blocking in
   let m = match run handler no_shutdown evs with
     | Res.Ok (ws, c) -> hex_concat ws ^ "/" ^ status_of_close end_ c
     | Res.Err _ -> "out-of-fuel"
@@ -78,7 +78,7 @@ let udp_case prov handler (socks : string list) : string * string =
         (split ',' s)) socks in
   let evs = Stdlib.List.map (fun d -> Framing.UdRecv d) (Stdlib.List.concat dgs) in
   let sends =
-    if prov = "tk" || prov = "tk1" then
+    if prov = "tk" || prov = "tk1" || prov = "tkw" then
       Stdlib.List.fold_left (fun acc r -> match acc, r with
           | Some l, Res.Ok o -> Some (l @ o)
           | _ -> None) (Some []) (Framing.udp_tokio handler psize evs)
